@@ -147,6 +147,12 @@ Inject(p) ==
        \cup {[p EXCEPT !.groups[g].conds[e].num = Unknown] : e \in 1..Len(p.groups[g].conds)}
        \cup {[p EXCEPT !.groups[g].names = InsertSeq(@, at, p.groups[g].conds[e].num)] :
                e \in 1..Len(p.groups[g].conds), at \in 1..(Len(p.groups[g].names) + 1)}
+       \* ... the same two defects in an entry that carries NO condition (a nil / empty list: such an entry is outside what the statement
+       \* obliges the compiler to accept, but a defect in it is a defect)
+       \cup {[p EXCEPT !.groups[g].conds = InsertSeq(@, at, Entry(Unknown, <<>>))] : at \in 1..(Len(p.groups[g].conds) + 1)}
+       \cup {[p EXCEPT !.groups[g].conds = InsertSeq(@, at, Entry(p.groups[g].names[k], <<>>))] :
+               k \in 1..Len(p.groups[g].names), at \in 1..(Len(p.groups[g].conds) + 1)}
+       \cup {[p EXCEPT !.groups[g].conds[e] = Entry(Unknown, <<>>)] : e \in 1..Len(p.groups[g].conds)}
        \cup UNION {
             {[p EXCEPT !.groups[g].conds[e].conds[c].arg = a] :
                \* (an index is a 32-bit unsigned number in the code; TLC's integers are 32-bit signed, so the upper half is written
@@ -277,13 +283,21 @@ HugeListPolicies ==
                          [names |-> <<>>, conds |-> [j \in 1..Len(sh) |-> Entry(NSys - 2, sh[j])] \o <<Entry(NSys - 1, <<DC(5, "Equal", 7)>>)>>, act |-> "errno"] >>) :
             n \in {0, 3}, sh \in {<<HugeList(c)>>, <<<<DC(0, "Equal", 2000)>>, HugeList(c)>>, <<HugeList(c), <<DC(1, "Equal", 2000)>>>>}, d \in {"allow", "errno"}} : c \in {129, 160, 200, 300}}
 
+\* a single-condition entry in company (C02: it matches exactly when its relation holds, wherever it stands): in a second group behind a
+\* group whose conditional entry for the SAME syscall tests the other argument (= 1: false for the events of scope single unless v = 1),
+\* and in a first group in front of such a group
+GuardedPolicies ==
+  UNION {LET g == [names |-> <<>>, conds |-> <<Entry(0, <<[arg |-> (IF c.arg = 0 THEN 5 ELSE 0), op |-> "Equal", val |-> 1]>>)>>, act |-> "kill_process"]
+             t == [names |-> <<>>, conds |-> <<Entry(0, <<c>>)>>, act |-> "errno"] IN
+         {Mk("allow", x, <<g, t>>), Mk("allow", x, <<t, g>>)} : x \in {TRUE, FALSE}, c \in [arg : {0, 5}, op : OpSet, val : Vals]}
+
 \* the kernel's limit (C07: every defect-free policy that fits 4096 instructions is accepted): 993 single-condition lists
 \* for one syscall (4 instructions each) in one group plus n names in a second group put the program size at 4090..4101
 LimitPolicies ==
   {Mk("allow", x, << [names |-> <<>>, conds |-> [j \in 1..993 |-> Entry(NSys - 1, EqLists(993, 1)[j])], act |-> "errno"],
                      LG(IdxRange(0, n - 1), "kill_process") >>) : x \in {TRUE}, n \in 90..101}
 
-Explicit(s) == s \in {"defects", "defects2", "long1", "long2", "longconds", "klong", "chain", "deep", "limit", "longdefects", "longops", "longlist", "shortlist", "mixgroup", "hugelist"}
+Explicit(s) == s \in {"defects", "defects2", "long1", "long2", "longconds", "klong", "chain", "deep", "limit", "longdefects", "longops", "longlist", "shortlist", "mixgroup", "hugelist", "guarded"}
 ExplicitPolicies(s) ==
   CASE s = "defects" -> BasePolicies(0) \cup Defective1(0)
     [] s = "defects2" -> BasePolicies(0) \cup Defective1(0) \cup Defective2(0)
@@ -297,6 +311,7 @@ ExplicitPolicies(s) ==
     [] s = "deep" -> DeepPolicies
     [] s = "mixgroup" -> MixPolicies
     [] s = "hugelist" -> HugeListPolicies
+    [] s = "guarded" -> GuardedPolicies
 
 ---------------------------------------------------------------------------
 \* SetToSeq fixes one order; it is exported with the cases
@@ -325,7 +340,7 @@ EventSeq(s) ==
          SetToSeq({Ev(ar, nr, [a \in 0..5 |-> v]) : ar \in {"own", "other"}, nr \in {0, 3, 10, 16, 17, 18, 25, 73, 74, NSys - 2, NSys - 1, NSys, X32Bit + 3}, v \in {0, 1, 2}})
     [] s = "limit" ->
          SetToSeq({Ev(ar, nr, [a \in 0..5 |-> v]) : ar \in {"own", "other"}, nr \in {0, 89, 90, 95, 101, NSys - 1, NSys, X32Bit + 1}, v \in {0, 2, 500, 994, 995}})
-    [] s = "single" ->
+    [] s \in {"single", "guarded"} ->
          SetToSeq({Ev("own", 0, [a \in {0, 5} |-> IF a = 0 THEN v ELSE w]) : v \in Vals, w \in {0, B*B - 1}}
                   \cup {Ev("own", 0, [a \in {0, 5} |-> IF a = 5 THEN v ELSE w]) : v \in Vals, w \in {0, B*B - 1}})
     [] s = "boundary" ->
